@@ -37,7 +37,11 @@ func c01Gen(seed int64, idx int) c01Case {
 	c.Topology = []string{"direct", "direct", "proxy", "fanin"}[idx%4]
 	ks := []int{1, 2, 3, 8, 16, 64}
 	c.Callers = ks[(idx/4)%len(ks)]
-	if c.Topology == "proxy" && c.Callers > 12 {
+	if c.Topology == "proxy" && idx%8 == 6 {
+		// a chain of three proxies: the reply follows the recorded route back
+		c.Topology = "chain"
+	}
+	if (c.Topology == "proxy" || c.Topology == "chain") && c.Callers > 12 {
 		// the proxy drops above its 16-slot per-destination buffer (C16 known finding); C01 stays below it
 		c.Callers = 12
 	}
@@ -389,6 +393,9 @@ func c01Run(tier string, seed int64, idx int) *core.Result {
 	res.Stat("calls", int64(len(recs)))
 	res.StatMax("max_concurrent_callers", int64(c.Callers))
 	res.SetAdd("topologies", c.Topology)
+	if c.Topology == "chain" {
+		res.Stat("cases_through_three_chained_proxies", 1)
+	}
 	res.Sig = fmt.Sprintf("%+v", c)
 	left := finish(tier, b, h, res)
 	<-relDone
@@ -400,7 +407,7 @@ func init() {
 	core.Register(&core.Prop{
 		ID:             "C01",
 		Level:          "exploration",
-		Rule:           "cases = (topology direct|proxy|fanin+demux) x callers {1,2,3,8,16,64} released together on ONE connection x link capacity {0,8} x {serialising, by-reference} x GOMAXPROCS {1,4,16} x handler-gating {0,50,100}% with a releaser letting parked handlers go in PRNG order; payload sizes from {0,1,17,1Ki,4Ki,64Ki} random bytes both ways; every fourth call goes to the service's second unary method (its handler marks the reply); every third call carries binary request metadata (1..9 arbitrary bytes under a -bin key) that the handler must see unchanged; every 8th direct and every 8th fan-in case spreads its callers over 2..3 client connections served by the one Server object at the same time; every 8th case (direct) first abandons a streaming call on the same connection (handler sent 3..6 messages, caller cancelled without receiving); every 8th direct case with >=16 callers additionally cancels 1..3 callers while they are blocked behind the fully gated server and starts 1..4 late callers before releasing the handlers. Plus (quick 8, thorough 64) cases over the shipped websocket transport on loopback sockets whose writes stall half-way: {2,8,16,64} concurrent callers, payloads 0..64 KiB around the 4 KiB frame chunk, the first 4 handlers held until 4 requests have arrived; wall-clock bound 30 s = inconclusive, only wrong requests/replies are violations. Plus (quick 12, thorough 96) reply-then-connection-end cases: {1,2,4,8} callers are held inside their transport write until their replies have been read and dispatched by the client and the connection has then ended (EOF or read failure); each must still get its reply. A case is non-trivial when, measured on the wire tap, at least one reply overtook an older unanswered request; distinct = distinct case parameter tuples.",
+		Rule:           "cases = (topology direct|proxy|chain of three proxies (every 8th case; replies follow the recorded route back)|fanin+demux) x callers {1,2,3,8,16,64} released together on ONE connection x link capacity {0,8} x {serialising, by-reference} x GOMAXPROCS {1,4,16} x handler-gating {0,50,100}% with a releaser letting parked handlers go in PRNG order; payload sizes from {0,1,17,1Ki,4Ki,64Ki} random bytes both ways; every fourth call goes to the service's second unary method (its handler marks the reply); every third call carries binary request metadata (1..9 arbitrary bytes under a -bin key) that the handler must see unchanged; every 8th direct and every 8th fan-in case spreads its callers over 2..3 client connections served by the one Server object at the same time; every 8th case (direct) first abandons a streaming call on the same connection (handler sent 3..6 messages, caller cancelled without receiving); every 8th direct case with >=16 callers additionally cancels 1..3 callers while they are blocked behind the fully gated server and starts 1..4 late callers before releasing the handlers. Plus (quick 8, thorough 64) cases over the shipped websocket transport on loopback sockets whose writes stall half-way: {2,8,16,64} concurrent callers, payloads 0..64 KiB around the 4 KiB frame chunk, the first 4 handlers held until 4 requests have arrived; wall-clock bound 30 s = inconclusive, only wrong requests/replies are violations. Plus (quick 12, thorough 96) reply-then-connection-end cases: {1,2,4,8} callers are held inside their transport write until their replies have been read and dispatched by the client and the connection has then ended (EOF or read failure); each must still get its reply. A case is non-trivial when, measured on the wire tap, at least one reply overtook an older unanswered request; distinct = distinct case parameter tuples.",
 		Plan:           func(tier string, seed int64) int { return tierN(tier, 96, 3000) + c01WS(tier) + tierN(tier, 12, 96) },
 		ThoroughRounds: 3,
 		Run:            c01Run,
